@@ -274,11 +274,12 @@ def check_C07(tier):
     agg = Agg('C07')
     for variant in (('fast', 'san') if tier == 'thorough' else ('fast',)):
         b = compile_bin('history', ['checks/history.cc'], variant, libs=['-lrapidcheck'], inc=[vlib.build_ref()])
-        agg.add(run_native(b, ['--seed', str(seed()), '--cases', cases if variant == 'fast' else '600', '--known', known_tsv('C07')], NCPU, 'C07-' + variant))
+        agg.add(run_native(b, ['--seed', str(seed()), '--cases', cases if variant == 'fast' else '600', '--marathon', ('400000' if tier == 'thorough' else '40000') if variant == 'fast' else '8000', '--known', known_tsv('C07')], NCPU, 'C07-' + variant))
     rule = ('rapidcheck-generated API histories (up to ~100 operations, whole-sequence shrinking) over 4 generator slots and ~85 configurations (21 hand-picked: angular correlations, deep cascades, chains, window mode, 4b, b+ modes; plus every published background name), shot tapes steered onto the reference thresholds'
             ' and drawn from a small pool so that the same (configuration, tape) recurs in different histories: create+initialise, shoot into a fresh / reused / pre-filled (junk particles) / shrink_to_fit event, reset+re-initialise, destroy, interleaved across slots; '
             'oracle at every shot: what a PRISTINE PROCESS (forked before any library call; fresh generator, fresh event) produces for the same configuration, init tape and shot tape, bit-identical incl. deviates consumed; non-trivial & distinct = (target configuration, history shape) where the shot had '
-            '>=1 earlier shot on the same instance, >=1 operation on another instance in between, and a non-fresh event')
+            '>=1 earlier shot on the same instance, >=1 operation on another instance in between, and a non-fresh event; plus one marathon history per shard (one generator per configuration, then 40000 / 400000 shots hopping between all of them in one process, '
+            'minimised by delta debugging in fresh child processes on failure); every history runs in its own forked child, so failures do not depend on earlier cases and replay in a fresh process')
     return verdict(agg, tier, t0, rule, ['the oracle process is forked before any library call, so it shares no function-local static, cache or global with the history under test', 'thorough tier repeats the histories against the ASan/UBSan build'], min_eval=500)
 
 
